@@ -1,23 +1,33 @@
 """C12 Zernike indexing, modes, normalisations and gradient matrices are right.
 
 E1 (product enumeration) over
-  * every Noll index j up to the bound (complete radial orders; 2.0e5 quick, 1.0e6 thorough),
+  * every Noll index j up to the bound (complete radial orders; 2.0e5 quick, 1.0e6 thorough), plus the first /
+    middle / last indices of sparse radial orders up to n = 3e7 (table-free integer oracle),
   * every (n, m) of radial order <= 7 (10 thorough) x every grid size N in the alphabet (odd and even)
-    x rotations x the three normalisations,
+    x rotations x the three normalisations; every mode up to Noll index 130 (257) on three small grids against
+    the EXACT rational value at the pixel centres,
   * every coefficient unit vector of phaseFromZernikes (E2-style: the whole operator) for every
     vector length K in the alphabet,
-  * every radial order 0..7 (0..10) of the gamma matrices, every entry.
+  * every radial order 0..7 (0..10), and 12 (12, 15), of the gamma matrices, every entry,
+  * every ordered pair (A, B) of entry-point calls: B after A (whose result the caller has overwritten in
+    place) gives what B gives in a pristine process,
+  * every spelling of a count / an index sequence / a coefficient vector in a small alphabet of Python and
+    numpy types.
 The oracle is mc/refmodels/zern.py: the Noll table by construction and exact rational Cartesian
 polynomials (recurrence-based radial part) with exact derivatives and exact disc inner products.
 
 Entry points that cannot be called at all (canonical one-line probe raises) are reported ONCE, by
 the case `entry_points`, as `entry_point_callable|entry_points|<name>`; the value clauses that need
 such an entry point are skipped (counted in the statistic `skipped_entry_point_unavailable`).
+
+Every case runs in its own forked child (ISOLATE_CASES): a verdict never depends on which case ran
+before it; dependence on the call history is the subject of the `history:*` cases.
 """
 import contextlib
 import io
 import itertools
 import math
+from fractions import Fraction
 
 import numpy
 
@@ -26,50 +36,77 @@ from mc.refmodels import zern
 
 PROPERTY = "C12"
 LEVEL = "exploration"
+ISOLATE_CASES = True
 TECHNIQUE = ("bounded exhaustive enumeration (every Noll index of all complete radial orders up to the "
              "bound; every mode x grid size x rotation x normalisation; every coefficient unit vector; "
-             "every gamma-matrix entry) against exact rational reference polynomials")
-RULE = ("cases = {entry_points} + {noll chunk of complete radial orders} + {radial order n} + "
-        "product(N, rot) [modes, norms, list-vs-count] + product(N, norm, rot) [phaseFromZernikes on all "
-        "unit vectors for every K] + product(rot, N in ladder) [Gram] + {nzrad} [gamma entries] + "
-        "product(nzrad, N) [finite differences]; a case counts as non-trivial when its value clauses were "
-        "actually evaluated (entry point callable) and it is not the N<=2 / n=0 degenerate corner")
+             "every gamma-matrix entry; every ordered pair of entry-point calls) against exact rational "
+             "reference polynomials")
+RULE = ("cases = {entry_points} + {noll chunk of complete radial orders} + {sparse high radial order} + "
+        "{radial order n} + product(N, rot) [modes, norms, list-vs-count] + {N} [high-order modes] + "
+        "product(N, norm, rot) [phaseFromZernikes on all unit vectors for every K] + product(rot, N in ladder) "
+        "[Gram] + {nzrad} [gamma entries] + product(nzrad, N) [finite differences] + {N} [rotation group law] + "
+        "{N} [argument spellings] + product(N, first call) [call histories]; a case counts as non-trivial when "
+        "its value clauses were actually evaluated (entry point callable) and it is not the N<=2 / n=0 "
+        "degenerate corner")
 ASSUMPTIONS = [
     "grid convention: pixel centres at (2k+1-N)/N pupil radii, x along axis 1, y along axis 0, "
     "theta = atan2(y, x); pupil = pixel centres with x^2+y^2 <= 1 (decided in integers, no ties exist)",
-    "rotation: the statement does not fix the meaning of `rot` beyond 'a rotation of the mode'; the check "
-    "requires that a rotated m != 0 mode is a unit-norm combination of the reference cosine/sine pair of "
-    "the same (n, |m|), that the pair stays an orthonormal pair (proper rotation matrix), and that m = 0 "
-    "modes are unchanged; the angle convention itself (aotools uses cos(m*theta + rot)) is only recorded",
+    "rotation: the statement does not fix the meaning of `rot` beyond 'a rotation of the mode' (docstring: 'by "
+    "rot radians'); the check requires that a rotated m != 0 mode is a unit-norm combination of the reference "
+    "cosine/sine pair of the same (n, |m|), that the pair stays an orthonormal pair (proper rotation matrix), "
+    "that m = 0 modes are unchanged, that the rotation angle in the (cos, sin) plane is rot or m*rot with either "
+    "sign (aotools uses cos(m*theta + rot); which one is only recorded), that zernike_nm, zernike_noll and "
+    "zernikeArray agree on it, and that rotations compose (M(a) M(b) = M(a+b))",
     "unit peak-to-valley is taken over the returned array, unit RMS over the pupil pixels; modes whose "
     "Noll-normalised samples have p2v (resp. rms) < 1e-6 on the grid (e.g. defocus on the 2x2 grid, piston "
-    "for p2v when no pixel lies outside the pupil) cannot be normalised and are outside the domain",
+    "for p2v when no pixel lies outside the pupil; only grids N <= 3) cannot be normalised and are outside the "
+    "domain: the library is not asked for them through index lists, a count that includes them may raise, and "
+    "their slices of a returned stack are ignored",
+    "'equals' between two results of the library (list vs count, default norm, phase vs modes) means equality up "
+    "to the float64 rounding of a mode value, 1e3 eps c_nm sum|radial coefficients| (at least 1e-10), not "
+    "bit-equality",
+    "an 'index list' is a list, a tuple or a 1-d integer ndarray (int16 ... uint64); a 'count' is a Python int or "
+    "a numpy integer scalar; float / 0-d array counts and an empty coefficient vector may be rejected, but a "
+    "returned result must be right; 8-bit index dtypes are not exercised (pending triage of a finding)",
     "'Gram matrix tends to the identity as the grid is refined' is decided by the bounded surrogate: "
     "max|G-I| strictly decreasing along the ladder N = 16, 32, ..., and below GRAM_END at its end",
     "finite-difference clause: tolerance is the rigorous Taylor remainder h^2/6 (max|f'''| on the stencil "
-    "rows + h * bound|f''''|) from the exact polynomial plus the float32 rounding of gamma",
+    "rows + h * bound|f''''|) from the exact polynomial plus the float32 rounding of gamma (the same relative "
+    "1e-6 as the entry clause)",
+    "call histories: the entry points are functions of their arguments; B called after A (result of A "
+    "overwritten in place by the caller, who owns it) must give what B gives in a fresh process",
     "values outside the (N, rot, K, j) alphabets are not covered",
 ]
 ENGINES = ["E1-product-enumeration", "E2-basis-exhaustion"]
 LEVEL_TEXT = ("Every Noll index of all complete radial orders up to j = 200 028 (quick) / 1 000 405 (thorough) is "
               "mapped by the real zernIndex and compared with the table built by construction (image, bijection "
-              "per block of orders, order, parity rule). Every mode of radial order <= 7 (<= 10) is generated by "
-              "the real code on every grid size 2..17, 32, 64 (more in thorough), three (six) rotations and three "
-              "normalisations and compared pixel by pixel with exact reference polynomials; phaseFromZernikes is "
-              "evaluated on all coefficient unit vectors; every entry of the gamma matrices of radial orders "
-              "0..7 (0..10) is compared with the exact disc inner product of the differentiated polynomial.")
+              "per block of orders, order, parity rule), and the ends and the middle of seven radial orders up to "
+              "n = 3e7 with an integer formula. Every mode of radial order <= 7 (<= 10) is generated by "
+              "the real code on every grid size 1..17, 32, 33, 64, 65 (more in thorough, up to 257), three (six) "
+              "rotations and three normalisations and compared pixel by pixel with exact reference polynomials; "
+              "every mode up to Noll index 130 (257) on the grids 7, 8, 10 with its exact rational value; "
+              "phaseFromZernikes is evaluated on all coefficient unit vectors; every entry of the gamma matrices "
+              "of radial orders 0..7 (0..10) and 12 (12, 15) is compared with the exact disc inner product of the "
+              "differentiated polynomial; every ordered pair of 15 entry-point calls is run in a fresh process.")
 LEVEL_NOTE = ("Trusted: fractions/integer arithmetic of Python, numpy float evaluation of the reference "
               "polynomials (self-validated exactly: radial orthogonality, disc orthonormality, completeness of "
-              "the derivative expansion, in setup()). Not covered: indices / orders / grid sizes beyond the "
-              "bounds; the Gram limit is a finite ladder.")
+              "the derivative expansion, in setup(), up to the radial order of the mode clauses; the gamma "
+              "reference of orders 12 / 15 is validated by exact Parseval completeness of every derivative "
+              "only). Not covered: indices / orders / grid sizes beyond the bounds; the Gram limit is a finite "
+              "ladder.")
 
-TOL_VAL = 1e-10        # mode values vs reference (measured <= 3e-13 for n <= 10)
-TOL_NORM = 1e-12       # unit p2v / unit rms
-TOL_SLICE = 1e-13      # list-vs-count, phase = linear combination (same arithmetic: measured 0)
+EPS = float(numpy.finfo(float).eps)
+TOL_VAL = 1e-10        # mode values vs reference (measured <= 9e-13 for n <= 10, N <= 128: margin 100)
+TOL_NORM = 1e-12       # unit p2v / unit rms (measured 4e-16)
 TOL_LIN = 1e-12
 TOL_GAMMA = 1e-6       # float32 storage of gamma, relative to max(1, |gamma_ref|)
-GRAM_END = 1e-2        # bound at the end of the ladder
+GRAM_END = 2e-2        # bound at the end of the ladder (measured 3.4e-3 at N = 256, 2.3e-3 at 512; the value is a
+#                        property of the sampling geometry, not of the implementation: margin 5.9)
 ROT_COND = 1e6
+ROT_COND_CMP = 1e3     # the fitted 2x2 matrices are compared with each other / with an angle only on grids where
+#                        the (cos, sin) pair is this well conditioned
+DEGENERATE = 1e-6      # p2v / rms of the Noll-normalised samples below which a mode cannot be normalised (on the
+#                        unchanged library the values are either < 3e-14 or > 1e-2: no grid is near the threshold)
 
 ENTRY_POINTS = ["zernIndex", "zernikeRadialFunc", "zernike_nm", "zernike_noll", "zernikeArray",
                 "phaseFromZernikes", "makegammas"]
@@ -80,10 +117,15 @@ def _nmax(tier):
 
 
 def _Ns(tier):
-    ns = list(range(2, 18)) + [32, 64]
+    ns = list(range(1, 18)) + [32, 33, 64, 65]
     if tier != "quick":
-        ns += list(range(18, 32)) + [33, 63, 65, 100, 127, 128]
-    return sorted(ns)
+        ns += list(range(18, 32)) + [63, 100, 127, 128, 130, 257]
+    return sorted(set(ns))
+
+
+def _Ns_phase(tier):
+    """phaseFromZernikes costs K^2 mode evaluations per K: the two largest spot sizes are left to the mode cases"""
+    return [n for n in _Ns(tier) if n <= 128]
 
 
 def _rots(tier):
@@ -95,6 +137,9 @@ def _rots(tier):
 
 def _noll_nmax(tier):
     return 631 if tier == "quick" else 1413
+
+
+NOLL_SPARSE = [2000, 10 ** 4, 10 ** 5, 10 ** 6, 3 * 10 ** 6, 10 ** 7, 3 * 10 ** 7]
 
 
 def _ladder(tier):
@@ -110,23 +155,44 @@ def _Ks(tier, J, N=0):
     return [k for k in ks if k <= J]
 
 
+def _long_Ks(tier):
+    return [64, 65, 130] if tier == "quick" else [64, 65, 129, 130, 257]
+
+
+def _gamma_orders(tier):
+    return list(range(0, _nmax(tier) + 1)) + ([12] if tier == "quick" else [12, 15])
+
+
 NORMS = ["noll", "p2v", "rms"]
+HIGH_N = [7, 8, 10]
+ROTLAW_N = [8, 9]
+SPELL_N = [8, 9]
+HIST_N = [8]
 
 
 def BOUNDS(tier):
     nm = _nmax(tier)
     return {"noll_radial_orders": [0, _noll_nmax(tier)], "noll_max_j": zern.n_modes(_noll_nmax(tier)),
-            "mode_radial_orders": [0, nm], "J": zern.n_modes(nm), "N": _Ns(tier),
+            "noll_sparse_radial_orders": NOLL_SPARSE,
+            "mode_radial_orders": [0, nm], "J": zern.n_modes(nm), "N": _Ns(tier), "N_max": max(_Ns(tier)),
+            "N_phase": _Ns_phase(tier),
             "rot": [r[0] for r in _rots(tier)], "norms": NORMS, "phase_K": _Ks(tier, zern.n_modes(nm)),
-            "phase_K_for_N>=32": _Ks(tier, zern.n_modes(nm), 32),
-            "gram_ladder": _ladder(tier), "gamma_nzrad": list(range(0, nm + 1)),
-            "fd_N": [128] if tier == "quick" else [128, 256]}
+            "phase_K_for_N>=32": _Ks(tier, zern.n_modes(nm), 32), "phase_K_long": _long_Ks(tier),
+            "high_order_modes_max_j": max(_long_Ks(tier)), "high_order_modes_N": HIGH_N,
+            "gram_ladder": _ladder(tier), "gamma_nzrad": _gamma_orders(tier),
+            "fd_N": [128] if tier == "quick" else [128, 256],
+            "rotation_law_N": ROTLAW_N, "spellings_N": SPELL_N, "history_N": HIST_N,
+            "history_calls": HIST_OPS}
 
 
 def setup(tier):
     err = zern.selftest(_nmax(tier))
     if err:
         raise RuntimeError("reference model self-test failed: %s" % err[:3])
+    t = zern.noll_table(60)
+    for j in range(1, len(t)):
+        if _noll_direct(j) != t[j]:
+            raise RuntimeError("integer Noll formula disagrees with the table by construction at j=%d" % j)
 
 
 def cases(tier):
@@ -144,6 +210,8 @@ def cases(tier):
             n1 += 1
         yield Case("noll:n=%d-%d" % (n0, n1 - 1), {"kind": "noll", "n0": n0, "n1": n1}, False)
         n0 = n1
+    for n in NOLL_SPARSE:
+        yield Case("noll_sparse:n=%d" % n, {"kind": "noll_sparse", "n": n}, False)
     for n in range(nm + 1):
         yield Case("radial:n=%d" % n, {"kind": "radial", "n": n}, False)
     for n in range(8, 31 if tier == "quick" else 41):
@@ -152,24 +220,34 @@ def cases(tier):
         for rn, rv in _rots(tier):
             yield Case("modes:N=%d:rot=%s" % (N, rn), {"kind": "modes", "N": N, "rot": rv, "J": J, "nmax": nm},
                        False)
-    for N in _Ns(tier):
+    for N in HIGH_N:
+        yield Case("modes_high:N=%d" % N, {"kind": "modes_high", "N": N, "K": max(_long_Ks(tier))}, False)
+    for N in _Ns_phase(tier):
         for norm in NORMS:
             for rn, rv in _rots(tier):
                 yield Case("phase:N=%d:%s:rot=%s" % (N, norm, rn),
                            {"kind": "phase", "N": N, "norm": norm, "rot": rv, "Ks": _Ks(tier, J, N)}, False)
     # long coefficient vectors / many modes (beyond the 36 modes of the full lattice): every unit vector and the
-    # superpositions, for 64 / 65 / 130 (257) coefficients (the modes themselves to high order: radial_high cases)
+    # superpositions, for 64 / 65 / 130 (257) coefficients (the modes themselves: modes_high / radial_high cases)
     for N, norm, (rn, rv) in ((8, "noll", _rots(tier)[0]), (7, "rms", _rots(tier)[1]), (10, "p2v", _rots(tier)[2])):
         yield Case("phase:N=%d:%s:rot=%s:long" % (N, norm, rn),
-                   {"kind": "phase", "N": N, "norm": norm, "rot": rv, "Ks": [64, 65, 130] if tier == "quick" else [64, 65, 129, 130, 257]}, False)
+                   {"kind": "phase", "N": N, "norm": norm, "rot": rv, "Ks": _long_Ks(tier)}, False)
     for rn, rv in _rots(tier):
         for N in _ladder(tier):
             yield Case("gram:rot=%s:N=%d" % (rn, N), {"kind": "gram", "N": N, "rot": rv, "J": J}, False)
-    for k in range(0, nm + 1):
-        yield Case("gamma:nzrad=%d" % k, {"kind": "gamma", "nzrad": k}, False)
+    for k in _gamma_orders(tier):
+        yield Case("gamma:nzrad=%d" % k, {"kind": "gamma", "nzrad": k, "validated": k <= nm}, False)
     for k in range(1, nm + 1):
         for N in BOUNDS(tier)["fd_N"]:
             yield Case("gammafd:nzrad=%d:N=%d" % (k, N), {"kind": "gammafd", "nzrad": k, "N": N}, False)
+    for N in ROTLAW_N:
+        yield Case("rotlaw:N=%d" % N, {"kind": "rotlaw", "N": N, "rots": [r[1] for r in _rots(tier)], "nmax": nm},
+                   False)
+    for N in SPELL_N:
+        yield Case("spellings:N=%d" % N, {"kind": "spellings", "N": N}, False)
+    for N in HIST_N:
+        for a in HIST_OPS:
+            yield Case("history:N=%d:first=%s" % (N, a), {"kind": "history", "N": N, "first": a}, False)
 
 
 # ------------------------------------------------------------------------------ entry points
@@ -250,6 +328,74 @@ def _diff_nan(a, b):
     return _maxabs(a[fa] - b[fa])
 
 
+def _exc(e):
+    return "%s: %s" % (type(e).__name__, str(e)[:200])
+
+
+# ------------------------------------------------------------------------------ rounding bounds, exact values
+
+def _noll_direct(j):
+    """(n, m) of Noll index j by integer arithmetic (order n holds the indices n(n+1)/2+1 .. (n+1)(n+2)/2; inside an
+    order |m| = n mod 2, +2, ... with two indices per |m| > 0; even j is the cosine term).  Validated against the
+    table by construction in setup()."""
+    n = (math.isqrt(8 * (j - 1) + 1) - 1) // 2
+    p = j - n * (n + 1) // 2                       # 1-based position inside the order
+    am = 2 * (p // 2) if n % 2 == 0 else 2 * ((p - 1) // 2) + 1
+    return (n, 0) if am == 0 else (n, am if j % 2 == 0 else -am)
+
+
+_RB = {}
+
+
+def _round_bound(n):
+    """Absolute float64 rounding bound of a Noll-normalised mode value of radial order <= n, valid for any of the
+    usual evaluation schemes (factorial sum, Horner in r^2, recurrences): 1e3 eps c_nm sum_k |c_k|.  The unchanged
+    library (factorial sum) measures at most 20 eps c sum|c_k| for n <= 22 on the grids 7, 8, 10: margin 50."""
+    if n not in _RB:
+        best = 0.0
+        for k in range(n + 1):
+            for m in range(k % 2, k + 1, 2):
+                s = float(sum(abs(v) for v in zern.radial_coeffs(k, m).values())) * math.sqrt(zern.norm2(k, m))
+                best = max(best, s)
+        _RB[n] = 1e3 * EPS * best + 1e-12
+    return _RB[n]
+
+
+def _tol_modes(n):
+    """two correct evaluations of the same modes of radial order <= n agree to this (never below TOL_VAL)"""
+    return max(TOL_VAL, _round_bound(n))
+
+
+def _order_of(j):
+    return _noll_direct(int(j))[0]
+
+
+def _exact_mode(n, m, N):
+    """Noll-normalised mode at the pixel centres: R_n^|m|(r) r^-|m| is a polynomial in t = r^2 and
+    r^|m| {cos, sin}(|m| theta) = {Re, Im}(x + i y)^|m|, both evaluated EXACTLY in rationals at the rational pixel
+    centres; one rounding to float64 and one multiplication by c_nm."""
+    am = abs(m)
+    c = zern.radial_coeffs(n, am)
+    q = [c.get(am + 2 * k, Fraction(0)) for k in range((n - am) // 2 + 1)]
+    out = numpy.zeros((N, N))
+    cn = math.sqrt(zern.norm2(n, m))
+    for iy in range(N):
+        b = 2 * iy + 1 - N
+        for ix in range(N):
+            a = 2 * ix + 1 - N
+            if a * a + b * b > N * N:
+                continue
+            t = Fraction(a * a + b * b, N * N)
+            Q = Fraction(0)
+            for qk in reversed(q):
+                Q = Q * t + qk
+            re, im = 1, 0
+            for _ in range(am):
+                re, im = re * a - im * b, re * b + im * a
+            out[iy, ix] = cn * float(Q * Fraction(im if m < 0 else re, N ** am))
+    return out
+
+
 def evaluate(p):
     o = Out()
     kind = p["kind"]
@@ -258,20 +404,30 @@ def evaluate(p):
             return _entry(o)
         if kind == "noll":
             return _noll(o, p["n0"], p["n1"])
+        if kind == "noll_sparse":
+            return _noll_sparse(o, p["n"])
         if kind == "radial":
             return _radial(o, p["n"])
         if kind == "radial_high":
             return _radial_high(o, p["n"])
         if kind == "modes":
             return _modes(o, p["N"], p["rot"], p["J"], p["nmax"])
+        if kind == "modes_high":
+            return _modes_high(o, p["N"], p["K"])
         if kind == "phase":
             return _phase(o, p["N"], p["norm"], p["rot"], p["Ks"])
         if kind == "gram":
             return _gram(o, p["N"], p["rot"], p["J"])
         if kind == "gamma":
-            return _gamma(o, p["nzrad"])
+            return _gamma(o, p["nzrad"], p.get("validated", True))
         if kind == "gammafd":
             return _gammafd(o, p["nzrad"], p["N"])
+        if kind == "rotlaw":
+            return _rotlaw(o, p["N"], p["rots"], p["nmax"])
+        if kind == "spellings":
+            return _spellings(o, p["N"])
+        if kind == "history":
+            return _history(o, p["N"], p["first"])
     raise KeyError(kind)
 
 
@@ -353,15 +509,47 @@ def _noll(o, n0, n1):
     return o
 
 
+def _noll_sparse(o, n):
+    """High radial orders, where a table is out of reach: the indices around the first, the middle and the last
+    index of order n (and of its neighbours n - 1, n + 1 across the boundaries) against the integer formula.
+    An index computation in reduced precision, or an integer square root that is off by one next to a perfect
+    square, shows at the boundaries of an order first."""
+    if not _need(o, "zernIndex"):
+        return o
+    z = _zmod()
+    j0 = n * (n + 1) // 2 + 1
+    j1 = (n + 1) * (n + 2) // 2
+    mid = (j0 + j1) // 2
+    js = list(range(j0 - 8, j0 + 8)) + list(range(mid - 4, mid + 4)) + list(range(j1 - 8, j1 + 8))
+    bad = []
+    for j in js:
+        r = z.zernIndex(j)
+        o.stat("lib_calls", 1)
+        try:
+            got = (int(r[0]), int(r[1]))
+            if len(r) != 2 or float(r[0]) != got[0] or float(r[1]) != got[1]:
+                got = repr(r)
+        except Exception:
+            got = repr(r)
+        if got != _noll_direct(j):
+            bad.append((j, got))
+    _report(o, "noll_sparse_equals_integer_formula", bad, len(js),
+            "integer formula says %s" % (_noll_direct(bad[0][0]),) if bad else "")
+    o.stat("nontrivial", 1)
+    return o
+
+
 # ------------------------------------------------------------------------------ radial function
 
 def _radial_high(o, n):
     """High radial orders (beyond the orders whose full modes are generated): the radial polynomial at dyadic
-    radii against the EXACT rational value of the recurrence-based reference.  The factorial sum cancels
-    catastrophically for large n, so the tolerance is the rounding bound of that algorithm,
-    50 eps * sum |c_k|, not a fixed number.  (Added after a seeded change replaced the factorials by an int64
-    table that silently wraps from 21! on - invisible at the orders the mode clauses reach.)"""
-    from fractions import Fraction
+    radii against the EXACT rational value of the recurrence-based reference.  The polynomial cancels
+    catastrophically for large n, so the tolerance is a rounding bound in units of sum |c_k|, not a fixed number:
+    1e3 eps sum|c_k| covers the factorial sum of the unchanged library (measured <= 0.02 of it), recurrences,
+    float binomials and exp(lgamma) coefficients (measured 0.03 of it, relative coefficient errors ~1e-14), and
+    still exposes a wrong coefficient (error of the order of sum|c_k| itself).  (Added after a seeded change
+    replaced the factorials by an int64 table that silently wraps from 21! on - invisible at the orders the mode
+    clauses reach.)"""
     if not _need(o, "zernikeRadialFunc"):
         return o
     z = _zmod()
@@ -370,7 +558,7 @@ def _radial_high(o, n):
     for m in range(n % 2, n + 1, 2):
         c = zern.radial_coeffs(n, m)
         exact = numpy.array([float(sum(v * r ** pw for pw, v in c.items())) for r in rs]).reshape(1, -1)
-        bound = 50 * numpy.finfo(float).eps * float(sum(abs(v) for v in c.values())) + 1e-12
+        bound = 1e3 * EPS * float(sum(abs(v) for v in c.values())) + 1e-12
         got = numpy.asarray(z.zernikeRadialFunc(n, m, rf.copy()), dtype=float)
         o.stat("lib_calls", 1)
         err = _diff_nan(got, exact)
@@ -388,10 +576,13 @@ def _radial(o, n):
     r2 = numpy.sqrt(numpy.add.outer(r1[::10] ** 2, r1[::10] ** 2) / 2.0)    # a 2-d argument as documented
     for m in range(n % 2, n + 1, 2):
         for r in (r2, r1.reshape(1, -1)):
-            got = numpy.asarray(z.zernikeRadialFunc(n, m, r.copy()))
+            arg = r.copy()
+            got = numpy.asarray(z.zernikeRadialFunc(n, m, arg))
             o.stat("lib_calls", 1)
             ref = zern.radial_eval(n, m, r)
             o.close("radial_function", _diff_nan(got, ref), TOL_VAL, sub="m=%d" % m)
+            # the caller's array of radii is an input, not scratch space
+            o.check("radial_argument_unchanged", bool(numpy.array_equal(arg, r)), sub="m=%d" % m)
         one = numpy.asarray(z.zernikeRadialFunc(n, m, numpy.ones((1, 1))))
         o.stat("lib_calls", 1)
         o.close("radial_unity_at_edge", _maxabs(one - 1.0), TOL_VAL, sub="m=%d" % m)
@@ -406,6 +597,67 @@ def _ref_stack(J, N, table):
     return numpy.array([zern.mode(table[j][0], table[j][1], N) for j in range(1, J + 1)])
 
 
+def _partners(table, J):
+    partner = {}
+    for j in range(1, J + 1):
+        n, m = table[j]
+        if m != 0:
+            partner[j] = [k for k in range(1, J + 1) if table[k] == (n, -m)][0]
+    return partner
+
+
+def _wrap(a):
+    return (a + math.pi) % (2 * math.pi) - math.pi
+
+
+def _rot_angle(M):
+    """angle of the proper rotation closest to the 2x2 matrix M (rows: images of the cosine and of the sine mode,
+    columns: coefficients on the reference cosine / sine mode)"""
+    return math.atan2(M[1, 0] - M[0, 1], M[0, 0] + M[1, 1])
+
+
+def _scales(base, inside, norm):
+    """normalisation scale of every Noll-normalised mode of the stack: p2v over the array, rms over the pupil"""
+    npup = int(inside.sum())
+    out = []
+    for b in base:
+        if norm == "p2v":
+            out.append(float(b.max() - b.min()))
+        else:
+            out.append(math.sqrt(float(numpy.sum(b[inside] ** 2)) / npup) if npup else 0.0)
+    return out
+
+
+def _pair_fits(get, N, J, table, ref, inside, partner):
+    """least-squares coefficients of every m != 0 mode returned by get(j, n, m) on its reference (cos, sin) pair:
+    {j: (ab, cond, residual)}; modes of the wrong shape and degenerate grids are left out"""
+    out = {}
+    for j in range(1, J + 1):
+        n, m = table[j]
+        if m == 0:
+            continue
+        Z = numpy.asarray(get(j, n, m), dtype=float)
+        if Z.shape != (N, N):
+            continue
+        jc, js = (j, partner[j]) if m > 0 else (partner[j], j)
+        A = numpy.stack([ref[jc - 1][inside], ref[js - 1][inside]], axis=1)
+        sv = numpy.linalg.svd(A, compute_uv=False)
+        if A.shape[0] < 2 or sv[-1] <= sv[0] / ROT_COND:
+            continue
+        ab, *_ = numpy.linalg.lstsq(A, Z[inside], rcond=None)
+        out[j] = (ab, float(sv[0] / sv[-1]), _maxabs(A @ ab - Z[inside]))
+    return out
+
+
+def _pair_matrices(fits, table, partner):
+    """{j (m > 0): (M, cond)} for the pairs of which both modes were fitted"""
+    out = {}
+    for j, (ab, cond, _) in fits.items():
+        if table[j][1] > 0 and partner[j] in fits:
+            out[j] = (numpy.array([ab, fits[partner[j]][0]]), max(cond, fits[partner[j]][1]))
+    return out
+
+
 def _modes(o, N, rot, J, nmax):
     z = _zmod()
     table = zern.noll_table(nmax)
@@ -416,15 +668,14 @@ def _modes(o, N, rot, J, nmax):
     have_nm = _need(o, "zernike_nm")
     have_noll = _need(o, "zernike_noll")
     have_arr = _need(o, "zernikeArray")
-    partner = {}
-    for j in range(1, J + 1):
-        n, m = table[j]
-        if m != 0:
-            partner[j] = [k for k in range(1, J + 1) if table[k] == (n, -m)][0]
+    partner = _partners(table, J)
+    tolm = _tol_modes(nmax)
+    mats = {}
 
     def value_clauses(name, get):
         """zero outside; equals the reference (rot = 0) / is a rotation of the reference pair"""
         coef = {}
+        cond = {}
         for j in range(1, J + 1):
             n, m = table[j]
             Z = numpy.asarray(get(j, n, m), dtype=float)
@@ -443,7 +694,7 @@ def _modes(o, N, rot, J, nmax):
             jc, js = (j, partner[j]) if m > 0 else (partner[j], j)
             A = numpy.stack([ref[jc - 1][inside], ref[js - 1][inside]], axis=1)
             sv = numpy.linalg.svd(A, compute_uv=False)
-            if sv[-1] <= sv[0] / ROT_COND:
+            if A.shape[0] < 2 or sv[-1] <= sv[0] / ROT_COND:
                 o.stat("rot_fit_skipped_degenerate_grid", 1)
                 continue
             ab, *_ = numpy.linalg.lstsq(A, Z[inside], rcond=None)
@@ -452,6 +703,7 @@ def _modes(o, N, rot, J, nmax):
             o.close(name + "_rot_unit_norm", abs(float(ab @ ab) - 1.0), 1e-9 * (sv[0] / sv[-1]) ** 2,
                     sub="j=%d" % j)
             coef[j] = ab
+            cond[j] = float(sv[0] / sv[-1])
         for j, ab in coef.items():
             n, m = table[j]
             if m > 0 and partner[j] in coef:
@@ -461,6 +713,17 @@ def _modes(o, N, rot, J, nmax):
                         1e-6, sub="j=%d" % j)
                 if n == 1:
                     o.note("rot_convention_Z2_coeffs_on_(cos,sin)", [round(float(v), 6) for v in ab])
+                if max(cond[j], cond[partner[j]]) > ROT_COND_CMP:
+                    o.stat("rot_angle_not_claimed_ill_conditioned_grid", 1)
+                    continue
+                mats.setdefault(j, {})[name] = M
+                # `rot` is an angle in radians: the pair is turned by rot (aotools: cos(m theta + rot)) or by
+                # m * rot (the pattern turned by rot), in either sense - not by 0, not by rot degrees, and not
+                # by something that depends on the mode in another way
+                phi = _rot_angle(M)
+                dev = min(abs(_wrap(phi - c)) for c in (rot, -rot, m * rot, -m * rot))
+                o.close(name + "_rot_angle_is_rot_or_m_rot", dev, 1e-6, sub="j=%d" % j,
+                        detail="pair (n=%d, |m|=%d) turned by %.9f rad for rot=%r" % (n, m, phi, rot))
 
     if have_nm:
         value_clauses("nm", lambda j, n, m: z.zernike_nm(n, m, N, rot))
@@ -468,37 +731,69 @@ def _modes(o, N, rot, J, nmax):
         value_clauses("noll", lambda j, n, m: z.zernike_noll(j, N, rot))
     if have_arr:
         stacks = {}
-        for norm in NORMS:
-            Zs = numpy.asarray(z.zernikeArray(J, N, norm=norm, rot=rot), dtype=float)
-            o.stat("lib_calls", 1)
-            if Zs.shape != (J, N, N):
-                o.check("array_shape", False, sub=norm, detail="shape %s" % (Zs.shape,))
-                continue
+        from_list = set()
+        deg = {"noll": set(), "p2v": set(), "rms": set()}
+        scale = {}
+        Zs = numpy.asarray(z.zernikeArray(J, N, norm="noll", rot=rot), dtype=float)
+        o.stat("lib_calls", 1)
+        if Zs.shape != (J, N, N):
+            o.check("array_shape", False, sub="noll", detail="shape %s" % (Zs.shape,))
+        else:
             o.check("array_shape", True)
-            stacks[norm] = Zs
+            stacks["noll"] = Zs
         if "noll" in stacks:
             base = stacks["noll"]
+            for norm in ("p2v", "rms"):
+                scale[norm] = _scales(base, inside, norm)
+                deg[norm] = set(j for j in range(1, J + 1) if not (scale[norm][j - 1] > DEGENERATE))
+            for norm in ("p2v", "rms"):
+                good = [j for j in range(1, J + 1) if j not in deg[norm]]
+                if not deg[norm]:
+                    Zs = numpy.asarray(z.zernikeArray(J, N, norm=norm, rot=rot), dtype=float)
+                    o.stat("lib_calls", 1)
+                else:
+                    # the count includes modes that cannot be normalised on this grid (outside the domain): the
+                    # call may return anything in their slices, or refuse
+                    try:
+                        Zs = numpy.asarray(z.zernikeArray(J, N, norm=norm, rot=rot), dtype=float)
+                        o.stat("lib_calls", 1)
+                    except Exception as e:
+                        o.stat("degenerate_normalisation_raises_not_claimed", 1)
+                        o.note("degenerate_normalisation_exception", _exc(e))
+                        if not good:
+                            continue
+                        part = numpy.asarray(z.zernikeArray(good, N, norm=norm, rot=rot), dtype=float)
+                        o.stat("lib_calls", 1)
+                        if part.shape != (len(good), N, N):
+                            o.check("array_shape", False, sub=norm, detail="index list of %d -> shape %s"
+                                    % (len(good), part.shape))
+                            continue
+                        Zs = numpy.full((J, N, N), numpy.nan)
+                        Zs[[j - 1 for j in good]] = part
+                        from_list.add(norm)
+                if Zs.shape != (J, N, N):
+                    o.check("array_shape", False, sub=norm, detail="shape %s" % (Zs.shape,))
+                    continue
+                o.check("array_shape", True)
+                stacks[norm] = Zs
             value_clauses("array", lambda j, n, m: base[j - 1])
             if have_noll:
                 worst = 0.0
                 for j in range(1, J + 1):
                     worst = max(worst, _diff_nan(base[j - 1], z.zernike_noll(j, N, rot)))
                     o.stat("lib_calls", 1)
-                o.close("array_default_is_noll_modes", worst, TOL_SLICE)
+                o.close("array_default_is_noll_modes", worst, tolm)
             dflt = numpy.asarray(z.zernikeArray(J, N, rot=rot))
             o.stat("lib_calls", 1)
-            o.close("array_default_norm_is_noll", _diff_nan(dflt, base), TOL_SLICE)
+            o.close("array_default_norm_is_noll", _diff_nan(dflt, base), tolm)
             for norm in ("p2v", "rms"):
                 if norm not in stacks:
                     continue
                 Zn = stacks[norm]
                 for j in range(1, J + 1):
                     b = base[j - 1]
-                    if norm == "p2v":
-                        s = float(b.max() - b.min())
-                    else:
-                        s = math.sqrt(float(numpy.sum(b[inside] ** 2)) / npup)
-                    if not (s > 1e-6):
+                    s = scale[norm][j - 1]
+                    if j in deg[norm]:
                         o.stat("norm_degenerate_mode_skipped", 1)
                         continue
                     zz = Zn[j - 1]
@@ -509,7 +804,7 @@ def _modes(o, N, rot, J, nmax):
                         got = math.sqrt(float(numpy.sum(zz[inside] ** 2)) / npup)
                         o.close("unit_rms", abs(got - 1.0), TOL_NORM, sub="j=%d" % j)
                     o.check(norm + "_zero_outside_pupil", bool(numpy.all(zz[outside] == 0.0)), sub="j=%d" % j)
-                    o.close(norm + "_is_positive_rescaling_of_noll", _diff_nan(zz * s, b), 1e-11,
+                    o.close(norm + "_is_positive_rescaling_of_noll", _diff_nan(zz * s, b), max(1e-11, tolm),
                             sub="j=%d" % j)
         # list-vs-count
         lists = [[j] for j in range(1, J + 1)]
@@ -522,8 +817,19 @@ def _modes(o, N, rot, J, nmax):
         lists += [[6, 6, 2], [2, 6, 6], [6, 2, 6], [min(J, 8), min(J, 11), min(J, 14), 5],
                   [((7 * k + 3) % J) + 1 for k in range(J)]]
         for norm, Zs in stacks.items():
+            if norm in from_list:
+                o.stat("list_vs_count_not_claimed_count_refused_degenerate_grid", 1)
+                continue
+            # two correct evaluations of a normalised mode differ by the rounding of the mode over its scale
+            smin = min([1.0] + [scale[norm][j - 1] for j in range(1, J + 1) if j not in deg[norm]]) \
+                if norm != "noll" else 1.0
             worst, shape_bad = 0.0, None
-            for L in lists:
+            seen = set()
+            for L0 in lists:
+                L = [j for j in L0 if j not in deg[norm]]       # never ask for a mode outside the domain
+                if not L or (deg[norm] and tuple(L) in seen):
+                    continue
+                seen.add(tuple(L))
                 for arg in (L, tuple(L), numpy.array(L)):
                     got = numpy.asarray(z.zernikeArray(arg, N, norm=norm, rot=rot))
                     o.stat("lib_calls", 1)
@@ -537,10 +843,101 @@ def _modes(o, N, rot, J, nmax):
             if shape_bad is not None:
                 o.check("list_equals_count_slices", False, sub=norm, detail="list %s... -> shape %s" % shape_bad)
             else:
-                o.close("list_equals_count_slices", worst, TOL_SLICE, sub=norm)
+                o.close("list_equals_count_slices", worst, tolm / smin, sub=norm)
         if "noll" in stacks:
             o.outcome(numpy.round(stacks["noll"], 6))
+    # the same rotation for the three ways of asking for a mode
+    for j, d in mats.items():
+        names = sorted(d)
+        worst = 0.0
+        for a_, b_ in itertools.combinations(names, 2):
+            worst = max(worst, _maxabs(d[a_] - d[b_]))
+        if len(names) >= 2:
+            o.close("rot_same_for_nm_noll_array", worst, 1e-6, sub="j=%d" % j, detail="compared %s" % names)
     if (have_nm or have_noll or have_arr) and N >= 3:
+        o.stat("nontrivial", 1)
+    return o
+
+
+def _modes_high(o, N, K):
+    """Every mode up to Noll index K (radial order 15 quick / 22 thorough) on a small grid, from the three ways of
+    asking for it, against the exact rational value at the pixel centres.  Tolerance: the rounding bound
+    1e3 eps c sum|c_k| of the radial order (the unchanged library measures <= 20 eps c sum|c_k|)."""
+    z = _zmod()
+    nmax = _order_of(K)
+    table = zern.noll_table(nmax)
+    _, _, inside = zern.grid(N)
+    outside = ~inside
+    ref = [None] + [_exact_mode(table[j][0], table[j][1], N) for j in range(1, K + 1)]
+    srcs = []
+    if _need(o, "zernike_nm"):
+        srcs.append(("nm", lambda j: z.zernike_nm(table[j][0], table[j][1], N)))
+    if _need(o, "zernike_noll") and _available("zernIndex") is None:
+        srcs.append(("noll", lambda j: z.zernike_noll(j, N)))
+    if _need(o, "zernikeArray"):
+        st = numpy.asarray(z.zernikeArray(K, N), dtype=float)
+        o.stat("lib_calls", 1)
+        if o.check("high_order_array_shape", st.shape == (K, N, N), detail="shape %s" % (st.shape,)):
+            srcs.append(("array", lambda j: st[j - 1]))
+    for name, get in srcs:
+        for j in range(1, K + 1):
+            Z = numpy.asarray(get(j), dtype=float)
+            o.stat("lib_calls", 1)
+            if Z.shape != (N, N):
+                o.check("high_order_mode_equals_exact", False, sub="%s:j=%d" % (name, j), detail="shape %s" % (Z.shape,))
+                continue
+            bound = _round_bound(table[j][0])
+            err = _diff_nan(Z, ref[j])
+            o.check("high_order_mode_equals_exact", err <= bound, sub="%s:j=%d" % (name, j), measure=err / bound,
+                    tol=1.0, detail={"abs_error": err, "rounding_bound": bound, "nm": table[j]})
+            o.check("high_order_mode_zero_outside_pupil", bool(numpy.all(Z[outside] == 0.0)), sub="%s:j=%d" % (name, j))
+    if srcs:
+        o.stat("nontrivial", 1)
+    return o
+
+
+def _rotlaw(o, N, rots, nmax):
+    """Rotations compose: for all a, b of the rot alphabet (and their negatives) the 2x2 matrices fitted to the
+    rotated (cos, sin) pairs satisfy M(a) M(b) = M(a + b), for the three ways of asking for a mode.  Together with
+    M(0) = I (rot = 0 clauses) this makes `rot` one consistent angle convention over the whole alphabet."""
+    z = _zmod()
+    J = zern.n_modes(nmax)
+    table = zern.noll_table(nmax)
+    _, _, inside = zern.grid(N)
+    ref = _ref_stack(J, N, table)
+    partner = _partners(table, J)
+    angles = sorted(set([r for r in rots if r != 0.0] + [-r for r in rots if r != 0.0]))
+    srcs = []
+    if _need(o, "zernike_nm"):
+        srcs.append(("nm", lambda rot: (lambda j, n, m: z.zernike_nm(n, m, N, rot))))
+    if _need(o, "zernike_noll") and _available("zernIndex") is None:
+        srcs.append(("noll", lambda rot: (lambda j, n, m: z.zernike_noll(j, N, rot))))
+    if _need(o, "zernikeArray"):
+        def arr(rot):
+            st = numpy.asarray(z.zernikeArray(J, N, rot=rot), dtype=float)
+            return lambda j, n, m: (st[j - 1] if st.shape == (J, N, N) else numpy.zeros(0))
+        srcs.append(("array", arr))
+    for name, mk in srcs:
+        cache = {}
+
+        def M(rot):
+            if rot not in cache:
+                cache[rot] = _pair_matrices(_pair_fits(mk(rot), N, J, table, ref, inside, partner), table, partner)
+                o.stat("lib_calls", J)
+            return cache[rot]
+        for a, b in itertools.product(angles, repeat=2):
+            Ma, Mb, Mab = M(a), M(b), M(a + b)
+            worst, cnt = 0.0, 0
+            for j in Ma:
+                if j not in Mb or j not in Mab or max(Ma[j][1], Mb[j][1], Mab[j][1]) > ROT_COND_CMP:
+                    o.stat("rot_law_not_claimed_ill_conditioned_or_unfitted", 1)
+                    continue
+                worst = max(worst, _maxabs(Ma[j][0] @ Mb[j][0] - Mab[j][0]))
+                cnt += 1
+            if cnt:
+                o.check("rot_composes", worst <= 1e-6, sub="%s:a=%.6g:b=%.6g" % (name, a, b), measure=worst,
+                        tol=1e-6, n=cnt)
+    if srcs:
         o.stat("nontrivial", 1)
     return o
 
@@ -551,11 +948,30 @@ def _phase(o, N, norm, rot, Ks):
     if not _need(o, "phaseFromZernikes", "zernikeArray"):
         return o
     z = _zmod()
+    _, _, inside = zern.grid(N)
     for K in Ks:
+        smin = 1.0
+        if norm != "noll":
+            # modes that cannot be normalised on this grid are outside the domain: the library is not asked
+            base = numpy.asarray(z.zernikeArray(K, N, norm="noll", rot=rot), dtype=float)
+            o.stat("lib_calls", 1)
+            if base.shape != (K, N, N):
+                o.check("phase_shape", False, sub="K=%d" % K, detail="zernikeArray shape %s" % (base.shape,))
+                continue
+            sc = _scales(base, inside, norm)
+            if not all(s > DEGENERATE for s in sc):
+                o.stat("phase_K_skipped_degenerate_normalisation", 1)
+                continue
+            smin = min([1.0] + sc)
         Zs = numpy.asarray(z.zernikeArray(K, N, norm=norm, rot=rot), dtype=float)
         o.stat("lib_calls", 1)
+        if Zs.shape != (K, N, N):
+            o.check("phase_shape", False, sub="K=%d" % K, detail="zernikeArray shape %s" % (Zs.shape,))
+            continue
         T = Zs.reshape(K, -1).T                        # expected operator (N*N x K)
-        finite = numpy.isfinite(T).all(axis=0)         # degenerate normalisations give NaN columns
+        finite = numpy.isfinite(T).all(axis=0)
+        # two correct evaluations of the (normalised) modes agree to this
+        tolm = _tol_modes(_order_of(K)) / smin
         worst = 0.0
         for k in range(K):
             e = [0.0] * K
@@ -571,7 +987,7 @@ def _phase(o, N, norm, rot, Ks):
         if not finite.all():
             o.stat("phase_K_skipped_degenerate_normalisation", 1)
             continue
-        o.close("phase_unit_vector_is_mode", worst, TOL_SLICE, sub="K=%d" % K)
+        o.close("phase_unit_vector_is_mode", worst, tolm, sub="K=%d" % K)
         # superpositions: e_a + 2 e_b (every a), a dense vector, a scalar multiple, ndarray input
         combos = []
         for a in range(K):
@@ -582,6 +998,8 @@ def _phase(o, N, norm, rot, Ks):
         combos.append((numpy.arange(1, K + 1) % 5 - 2.0) * 0.75)
         combos.append(-3.5 * combos[-1])
         scale = max(_maxabs(T), 1e-300)
+        # the sum of K rounded products, plus the rounding of the modes themselves (relative to the largest)
+        tol_lin = max(TOL_LIN, 10 * K * EPS) + tolm / scale
         worst = 0.0
         for ic, c in enumerate(combos):
             # list spelling for every combination, ndarray spelling for the two dense ones
@@ -589,16 +1007,18 @@ def _phase(o, N, norm, rot, Ks):
                 ph = numpy.asarray(z.phaseFromZernikes(arg, N, norm=norm, rot=rot), dtype=float)
                 o.stat("lib_calls", 1)
                 worst = max(worst, _diff_nan(ph.reshape(-1), T @ c) / (scale * max(1.0, numpy.abs(c).sum())))
-        o.close("phase_is_linear_combination", worst, TOL_LIN, sub="K=%d" % K)
-        # homogeneity over many decades of amplitude (a wavefront in metres has coefficients of 1e-9 ... 1e-6)
+        o.close("phase_is_linear_combination", worst, tol_lin, sub="K=%d" % K)
+        # homogeneity over many decades of amplitude (a wavefront in metres has coefficients of 1e-9 ... 1e-6);
+        # the error is measured against sum_k |T_k| |c_k| (what the rounding of a sum is proportional to)
         c = combos[K]
         base = T @ c
+        mag = max(_maxabs(numpy.abs(T) @ numpy.abs(c)), 1e-300)
         worst = 0.0
         for s_ in (1e-300, 1e-30, 1e-12, 1e-9, 1e-7, 1e6, 1e30):
             ph = numpy.asarray(z.phaseFromZernikes(list(c * s_), N, norm=norm, rot=rot), dtype=float)
             o.stat("lib_calls", 1)
-            worst = max(worst, _diff_nan(ph.reshape(-1) / s_, base) / max(_maxabs(base), 1e-300))
-        o.close("phase_homogeneous_over_amplitude", worst, 1e-12, sub="K=%d" % K)
+            worst = max(worst, _diff_nan(ph.reshape(-1) / s_, base) / mag)
+        o.close("phase_homogeneous_over_amplitude", worst, tol_lin, sub="K=%d" % K)
     if N >= 3:
         o.stat("nontrivial", 1)
     return o
@@ -646,7 +1066,25 @@ def finalize(tier, results):
 
 # ------------------------------------------------------------------------------ gamma matrices
 
-def _gamma(o, nzrad):
+def _gamma_reference(nzrad, validated):
+    """zern.gamma_ref; for radial orders beyond the exact self-test of setup() every row is validated by Parseval:
+    |dZ_i/dx|^2 (exact disc integral of the exact derivative) = sum_j gamma_x[i, j]^2, i.e. the expansion on the
+    lower-order modes is complete and correctly normalised"""
+    gx, gy, table = zern.gamma_ref(nzrad)
+    if not validated:
+        nz = len(table) - 1
+        for i in range(nz):
+            n, m = table[i + 1]
+            P = zern.cart_poly(n, m)
+            for g, d in ((gx, zern.p_dx(P)), (gy, zern.p_dy(P))):
+                total = float(zern.p_inner(d, d) * zern.norm2(n, m))
+                proj = float(numpy.sum(g[i] ** 2))
+                if abs(total - proj) > 1e-10 * max(1.0, total):
+                    raise RuntimeError("reference gamma matrices fail Parseval at nzrad=%d row %d" % (nzrad, i + 1))
+    return gx, gy, table
+
+
+def _gamma(o, nzrad, validated=True):
     if not _need(o, "makegammas"):
         return o
     z = _zmod()
@@ -655,7 +1093,7 @@ def _gamma(o, nzrad):
     nz = zern.n_modes(nzrad)
     if not o.check("gamma_shape", g.shape == (2, nz, nz), detail="shape %s, expected %s" % (g.shape, (2, nz, nz))):
         return o
-    gx, gy, table = zern.gamma_ref(nzrad)
+    gx, gy, table = _gamma_reference(nzrad, validated)
     for name, got, ref in (("x", g[0].astype(float), gx), ("y", g[1].astype(float), gy)):
         rel = numpy.abs(got - ref) / numpy.maximum(1.0, numpy.abs(ref))
         for i in range(nz):
@@ -665,10 +1103,10 @@ def _gamma(o, nzrad):
                     tol=TOL_GAMMA, n=nz,
                     detail="d Z%d/d%s: coefficient on Z%d is %r, exact %r" % (i + 1, name, jbad + 1,
                                                                             float(got[i, jbad]), float(ref[i, jbad])))
-        # only modes of strictly lower radial order may appear
+        # only modes of strictly lower radial order may appear (to the accuracy the entries are given with: a
+        # gamma obtained by projection or quadrature has entries ~1e-17 there, not literal zeros)
         low = numpy.array([[table[j + 1][0] < table[i + 1][0] for j in range(nz)] for i in range(nz)])
-        o.check("gamma_%s_lower_order_support" % name, bool(numpy.all(got[~low] == 0.0)),
-                measure=_maxabs(got[~low]), tol=0.0)
+        o.close("gamma_%s_lower_order_support" % name, _maxabs(got[~low]), TOL_GAMMA)
     if nzrad >= 2:
         o.stat("nontrivial", 1)
     o.outcome(numpy.round(g.astype(float), 5))
@@ -694,7 +1132,6 @@ def _gammafd(o, nzrad, N):
     # stencils completely inside the pupil
     vx = inside[:, 1:-1] & inside[:, :-2] & inside[:, 2:]
     vy = inside[1:-1, :] & inside[:-2, :] & inside[2:, :]
-    worst_abs = {"x": 0.0, "y": 0.0}
     for i in range(nz):
         n, m = table[i + 1]
         c = math.sqrt(zern.norm2(n, m))
@@ -711,12 +1148,258 @@ def _gammafd(o, nzrad, N):
                 fd = (Zs[i][2:, :] - Zs[i][:-2, :]) / (2 * h)
                 pred = numpy.tensordot(g[1][i], Zs, axes=(0, 0))[1:-1, :]
                 b3 = _maxabs(zern.p_eval(P3, X[1:-1, :], Y[1:-1, :])[valid]) if valid.any() else 0.0
-            tol = h * h / 6.0 * c * (b3 + h * zern.p_abs_sum(P4)) \
-                + 1.2e-7 * float(numpy.abs(g[0 if axis == 1 else 1][i]) @ zmax) + 1e-9
+            # rigorous truncation error of the central difference (attained exactly by cubic / quartic modes) ...
+            taylor = h * h / 6.0 * c * (b3 + h * zern.p_abs_sum(P4))
+            # ... plus what a gamma that is right to TOL_GAMMA (the accuracy demanded of its entries; float32
+            # storage is 1.2e-7) can contribute, plus the rounding of the differences of the modes themselves
+            # (mode errors ~1e-13 over 2h: < 1e-10)
+            slack = TOL_GAMMA * float(numpy.abs(g[0 if axis == 1 else 1][i]) @ zmax) + 1e-9
             err = _maxabs((fd - pred)[valid])
-            o.check("fd_gradient_%s_matches_gamma" % name, err <= tol, sub="i=%d" % (i + 1), measure=err / tol,
-                    tol=1.0, detail="max|central difference - sum_j gamma[i,j] Z_j| = %.3g, Taylor bound %.3g"
-                    % (err, tol))
-            worst_abs[name] = max(worst_abs[name], err)
+            o.check("fd_gradient_%s_matches_gamma" % name, err <= taylor + slack, sub="i=%d" % (i + 1),
+                    measure=max(0.0, err - taylor) / slack, tol=1.0,
+                    detail="max|central difference - sum_j gamma[i,j] Z_j| = %.3g, Taylor remainder %.3g, "
+                    "rounding slack %.3g" % (err, taylor, slack))
+    o.stat("nontrivial", 1)
+    return o
+
+
+# ------------------------------------------------------------------------------ argument spellings
+
+def _call(f, *a, **k):
+    """(result, None) or (None, exception text)"""
+    try:
+        return f(*a, **k), None
+    except Exception as e:
+        return None, _exc(e)
+
+
+INT_SCALARS = ["int16", "uint16", "int32", "uint32", "int64", "uint64", "intp"]
+# numpy.uint8 / numpy.int8 indices: zernIndex(numpy.uint8(36)) of the unchanged library returns [2, 32] with the
+# NumPy of the venv (8 * (j - 1) is evaluated in the dtype of j) - reported, left out until it is triaged
+
+
+def _spellings(o, N):
+    z = _zmod()
+    table = zern.noll_table(20)
+    if _need(o, "zernIndex"):
+        # the index as a numpy integer scalar (what iterating over an index array hands out)
+        for dt in INT_SCALARS:
+            ty = numpy.dtype(dt).type
+            bad = []
+            for j in range(1, 232):
+                r, exc = _call(z.zernIndex, ty(j))
+                o.stat("lib_calls", 1)
+                try:
+                    got = exc if exc else (int(r[0]), int(r[1]))
+                except Exception:
+                    got = repr(r)
+                if got != table[j]:
+                    bad.append((j, got))
+            o.check("index_numpy_integer_scalar", not bad, sub=dt, n=231,
+                    detail="zernIndex(numpy.%s(%d)) -> %s, expected %s; %d wrong of j = 1..231"
+                    % (dt, bad[0][0], bad[0][1], table[bad[0][0]], len(bad)) if bad else None)
+    if _need(o, "zernikeArray"):
+        for norm in NORMS:
+            # counts
+            for J in (1, 5, 36):
+                want = numpy.asarray(z.zernikeArray(J, N, norm=norm), dtype=float)
+                o.stat("lib_calls", 1)
+                spell = [(dt, numpy.dtype(dt).type(J), True) for dt in ["uint8", "int8"] + INT_SCALARS]
+                spell += [("float", float(J), False), ("float64", numpy.float64(J), False),
+                          ("0-d array", numpy.array(J), False)]
+                for name, arg, required in spell:
+                    got, exc = _call(z.zernikeArray, arg, N, norm=norm)
+                    o.stat("lib_calls", 1)
+                    if exc is not None and not required:
+                        o.stat("count_float_spelling_rejected_not_claimed", 1)
+                        continue
+                    if exc is not None:
+                        o.check("count_numpy_integer_equals_int", False, sub="%s:%s:J=%d" % (norm, name, J), detail=exc)
+                        continue
+                    cl = "count_numpy_integer_equals_int" if required else "count_float_spelling_equals_int"
+                    o.close(cl, _diff_nan(numpy.asarray(got, dtype=float), want), TOL_VAL, sub="%s:%s:J=%d" % (norm, name, J))
+            # index sequences of other integer dtypes, other containers
+            for L in ([1], [4], [36], [2, 3, 4], [11, 7, 36], [5, 5, 2, 29]):
+                want = numpy.asarray(z.zernikeArray(L, N, norm=norm), dtype=float)
+                o.stat("lib_calls", 1)
+                spell = [(dt, numpy.array(L, dtype=dt)) for dt in INT_SCALARS]
+                ro = numpy.array(L)
+                ro.flags.writeable = False
+                spell += [("read_only", ro), ("tuple", tuple(L)), ("list_of_int64", [numpy.int64(j) for j in L]),
+                          ("strided", numpy.array([v for j in L for v in (j, 0)])[::2])]
+                for name, arg in spell:
+                    keep = arg.copy() if isinstance(arg, numpy.ndarray) else None
+                    got, exc = _call(z.zernikeArray, arg, N, norm=norm)
+                    o.stat("lib_calls", 1)
+                    sub = "%s:%s:%s" % (norm, name, "-".join(map(str, L)))
+                    if exc is not None:
+                        o.check("index_sequence_spelling_equals_list", False, sub=sub, detail=exc)
+                        continue
+                    o.close("index_sequence_spelling_equals_list", _diff_nan(numpy.asarray(got, dtype=float), want),
+                            TOL_VAL, sub=sub)
+                    if keep is not None:
+                        o.check("index_sequence_unchanged", bool(numpy.array_equal(keep, arg)), sub=sub)
+    if _need(o, "phaseFromZernikes", "zernikeArray"):
+        for norm in NORMS:
+            for vals in ([0, 1, 2, -1, 3], [2], [0, 0, 0, 1], [1, 0, -2, 0, 0, 4, 0, 0, 0, 3, -1]):
+                K = len(vals)
+                T = numpy.asarray(z.zernikeArray(K, N, norm=norm), dtype=float).reshape(K, -1).T
+                want = (T @ numpy.array(vals, dtype=float)).reshape(N, N)
+                o.stat("lib_calls", 1)
+                tol = max(TOL_LIN, 10 * K * EPS) * max(_maxabs(T), 1e-300) * max(1.0, float(numpy.abs(vals).sum())) \
+                    + _tol_modes(_order_of(K)) * float(numpy.abs(vals).sum())
+                ro = numpy.array(vals, dtype=float)
+                ro.flags.writeable = False
+                spell = [("int_list", list(vals)), ("float_list", [float(v) for v in vals]),
+                         ("tuple", tuple(float(v) for v in vals)), ("int64_array", numpy.array(vals, dtype="int64")),
+                         ("int32_array", numpy.array(vals, dtype="int32")),
+                         ("float32_array", numpy.array(vals, dtype="float32")),
+                         ("float64_array", numpy.array(vals, dtype=float)), ("read_only_array", ro),
+                         ("strided_array", numpy.array([v for x in vals for v in (x, 9.0)])[::2])]
+                for name, arg in spell:
+                    keep = arg.copy() if isinstance(arg, numpy.ndarray) else list(arg)
+                    got, exc = _call(z.phaseFromZernikes, arg, N, norm=norm)
+                    o.stat("lib_calls", 1)
+                    sub = "%s:%s:K=%d" % (norm, name, K)
+                    if exc is not None:
+                        o.check("phase_coefficient_spelling", False, sub=sub, detail=exc)
+                        continue
+                    o.close("phase_coefficient_spelling", _diff_nan(numpy.asarray(got, dtype=float), want), tol, sub=sub)
+                    same = numpy.array_equal(keep, arg) if isinstance(arg, numpy.ndarray) else list(arg) == keep
+                    o.check("phase_coefficients_unchanged", bool(same), sub=sub)
+            # no coefficients: the empty combination is the zero phase (an implementation may refuse it)
+            got, exc = _call(z.phaseFromZernikes, [], N, norm=norm)
+            o.stat("lib_calls", 1)
+            if exc is not None:
+                o.stat("phase_empty_vector_rejected_not_claimed", 1)
+            else:
+                got = numpy.asarray(got, dtype=float)
+                o.check("phase_empty_vector_is_zero", got.shape == (N, N) and _maxabs(got) == 0.0, sub=norm,
+                        detail="shape %s" % (got.shape,))
+    if _need(o, "zernikeRadialFunc"):
+        r = numpy.sqrt(numpy.add.outer(numpy.linspace(0, 1, 9) ** 2, numpy.linspace(0, 1, 9) ** 2) / 2.0)
+        ro = r.copy()
+        ro.flags.writeable = False
+        for n, m in ((6, 2), (7, 1), (5, 5), (4, 0)):
+            ref = zern.radial_eval(n, m, r)
+            for name, arg in (("read_only", ro), ("fortran", numpy.asfortranarray(r)),
+                              ("strided", numpy.repeat(r, 2, axis=1)[:, ::2])):
+                got, exc = _call(z.zernikeRadialFunc, n, m, arg)
+                o.stat("lib_calls", 1)
+                sub = "%s:n=%d:m=%d" % (name, n, m)
+                if exc is not None:
+                    o.check("radial_argument_storage", False, sub=sub, detail=exc)
+                    continue
+                o.close("radial_argument_storage", _diff_nan(numpy.asarray(got, dtype=float), ref), TOL_VAL, sub=sub)
+                o.check("radial_argument_unchanged", bool(numpy.array_equal(arg, r)), sub=sub)
+    o.stat("nontrivial", 1)
+    return o
+
+
+# ------------------------------------------------------------------------------ call histories
+
+HIST_OPS = ["zernIndex", "zernike_nm", "zernike_noll", "zernike_noll_rot", "array_noll", "array_p2v", "array_rms",
+            "array_rot", "list_noll", "list_p2v", "phase_noll", "phase_rms", "makegammas4", "makegammas3",
+            "zernikeRadialFunc"]
+HIST_J = 21
+
+
+def _hist_call(name, N):
+    z = _zmod()
+    t = zern.noll_table(5)
+    c = [((k * 5) % 7 - 3) * 0.5 for k in range(HIST_J)]
+    if name == "zernIndex":
+        return [z.zernIndex(j) for j in range(1, 37)]
+    if name == "zernike_nm":
+        return [z.zernike_nm(t[j][0], t[j][1], N) for j in range(1, HIST_J + 1)]
+    if name == "zernike_noll":
+        return [z.zernike_noll(j, N) for j in range(1, HIST_J + 1)]
+    if name == "zernike_noll_rot":
+        return [z.zernike_noll(j, N, 0.3) for j in range(1, HIST_J + 1)]
+    if name in ("array_noll", "array_p2v", "array_rms"):
+        return z.zernikeArray(HIST_J, N, norm=name[6:])
+    if name == "array_rot":
+        return z.zernikeArray(HIST_J, N, rot=0.3)
+    if name in ("list_noll", "list_p2v"):
+        return z.zernikeArray([4, 2, 7, 11, 3], N, norm=name[5:])
+    if name in ("phase_noll", "phase_rms"):
+        return z.phaseFromZernikes(c, N, norm=name[6:])
+    if name == "makegammas4":
+        return z.makegammas(4)
+    if name == "makegammas3":
+        return z.makegammas(3)
+    if name == "zernikeRadialFunc":
+        return z.zernikeRadialFunc(6, 2, numpy.linspace(0.0, 1.0, 17).reshape(1, -1))
+    raise KeyError(name)
+
+
+def _scribble(r, depth=0):
+    """the caller owns what a call returned: overwrite it in place"""
+    if isinstance(r, numpy.ndarray):
+        if r.flags.writeable and r.size:
+            r[...] = r * 2 + 1
+        return
+    if isinstance(r, list) and depth < 4:
+        if r and all(isinstance(v, (int, float, numpy.integer, numpy.floating)) for v in r):
+            for i in range(len(r)):
+                r[i] = 99 if i % 2 else -99
+            return
+        for v in r:
+            _scribble(v, depth + 1)
+    elif isinstance(r, tuple) and depth < 4:
+        for v in r:
+            _scribble(v, depth + 1)
+
+
+def _canon(r):
+    """result -> list of float arrays"""
+    if isinstance(r, numpy.ndarray):
+        return [numpy.array(r, dtype=float)]
+    if isinstance(r, (list, tuple)):
+        if r and all(isinstance(v, (int, float, numpy.integer, numpy.floating)) for v in r):
+            return [numpy.array([float(v) for v in r])]
+        out = []
+        for v in r:
+            out.extend(_canon(v))
+        return out
+    return [numpy.array([float(r)])]
+
+
+def _hist_child(N, first, second):
+    """runs in a forked child: `first` (result overwritten by the caller), then `second`"""
+    try:
+        with _quiet():
+            if first is not None:
+                _scribble(_hist_call(first, N))
+            return ("ok", _canon(_hist_call(second, N)))
+    except Exception as e:
+        return ("exc", _exc(e))
+
+
+def _history(o, N, first):
+    """B after A equals B in a pristine process, for every B: the entry points are functions of their arguments
+    (no mode list that grows across calls, no memo handed out by reference, no stack normalised in place in a
+    cache).  Every run is a fresh fork of this (library-free) case process."""
+    from mc.isolate import isolated
+    if not _need(o, *ENTRY_POINTS):
+        return o
+    for second in HIST_OPS:
+        k0, pristine = isolated(_hist_child, N, None, second)
+        k1, after = isolated(_hist_child, N, first, second)
+        o.stat("lib_calls", 3)
+        sub = "then=%s" % second
+        if k0 != "ok":
+            o.stat("history_pristine_call_failed_not_claimed", 1)     # reported by the value cases
+            continue
+        if k1 != "ok":
+            o.check("result_independent_of_call_history", False, sub=sub, detail=after)
+            continue
+        if len(pristine) != len(after) or any(a.shape != b.shape for a, b in zip(pristine, after)):
+            o.check("result_independent_of_call_history", False, sub=sub,
+                    detail="shapes %s after %s, %s in a fresh process" % ([a.shape for a in after][:3], first,
+                                                                         [a.shape for a in pristine][:3]))
+            continue
+        worst = max([0.0] + [_diff_nan(a, b) for a, b in zip(after, pristine)])
+        o.close("result_independent_of_call_history", worst, TOL_VAL, sub=sub)
     o.stat("nontrivial", 1)
     return o
